@@ -406,8 +406,11 @@ fn except_inner(
     let output = ctx.anchor.determine_select_columns(&pipeline);
     let output: HashSet<CId, RandomState> = HashSet::from_iter(output);
 
+    // columns used behind each position
+    let used_behind = used_behind(&pipeline);
+
     let mut res = Vec::with_capacity(pipeline.len());
-    for t in pipeline {
+    for (position, t) in pipeline.into_iter().enumerate() {
         res.push(t);
 
         if res.len() < 2 {
@@ -456,6 +459,10 @@ fn except_inner(
 
         // select must not contain things from bottom
         if bottom.iter().any(|c| output.contains(c)) {
+            continue;
+        }
+        // nor may anything behind the filter use them
+        if bottom.iter().any(|c| used_behind[position].contains(c)) {
             continue;
         }
 
@@ -522,9 +529,12 @@ fn intersect_inner(
     let output = ctx.anchor.determine_select_columns(&pipeline);
     let output: HashSet<CId, RandomState> = HashSet::from_iter(output);
 
+    // columns used behind each position
+    let used_behind = used_behind(&pipeline);
+
     let mut res = Vec::with_capacity(pipeline.len());
-    let mut pipeline = pipeline.into_iter().peekable();
-    while let Some(t) = pipeline.next() {
+    let mut pipeline = pipeline.into_iter().enumerate().peekable();
+    while let Some((position, t)) = pipeline.next() {
         res.push(t);
 
         if res.is_empty() {
@@ -558,6 +568,10 @@ fn intersect_inner(
         if bottom.iter().any(|c| output.contains(c)) {
             continue;
         }
+        // nor may anything behind the join use them
+        if bottom.iter().any(|c| used_behind[position].contains(c)) {
+            continue;
+        }
         // select must contain at least one thing from top
         if top.iter().all(|c| !output.contains(c)) {
             continue;
@@ -573,7 +587,7 @@ fn intersect_inner(
                 distinct = true;
             }
         }
-        if let Some(SqlTransform::Distinct) = pipeline.peek() {
+        if let Some((_, SqlTransform::Distinct)) = pipeline.peek() {
             distinct = true;
         }
 
@@ -597,7 +611,7 @@ fn intersect_inner(
             if let Some(Distinct) = &res.last() {
                 res.pop();
             }
-            if let Some(SqlTransform::Distinct) = pipeline.peek() {
+            if let Some((_, SqlTransform::Distinct)) = pipeline.peek() {
                 pipeline.next();
             }
         }
@@ -652,6 +666,28 @@ fn all_null(exprs: Vec<&Expr>) -> bool {
     exprs
         .iter()
         .all(|e| matches!(e.kind, ExprKind::Literal(Literal::Null)))
+}
+
+/// Columns referred to by a transform (not the ones it defines).
+fn cids_used(transform: &SqlTransform) -> Vec<CId> {
+    match transform {
+        SqlTransform::Super(t) => CidCollector::collect_t(t.clone()).1,
+        SqlTransform::Join { filter, .. } => CidCollector::collect(filter.clone()),
+        SqlTransform::Sort(sorts) => sorts.iter().map(|s| s.column).collect(),
+        SqlTransform::DistinctOn(cids) => cids.clone(),
+        _ => Vec::new(),
+    }
+}
+
+/// For each position of the pipeline, the columns used by the transforms behind it.
+fn used_behind(pipeline: &[SqlTransform]) -> Vec<HashSet<CId>> {
+    let mut res = vec![HashSet::new(); pipeline.len()];
+    let mut used = HashSet::new();
+    for (position, t) in pipeline.iter().enumerate().rev() {
+        res[position] = used.clone();
+        used.extend(cids_used(t));
+    }
+    res
 }
 
 /// Converts `(a == b) and ((c == d) and (e == f))`
